@@ -25,6 +25,8 @@ def withTail (maxT : α) (lst : Iv α) (ne : List (Iv α)) : List (Iv α) :=
 
 /-- `_fillInBlanks(tier, "", minTime, maxTime)` on the (sorted) entry list -/
 def fillInBlanks (es : List (Iv α)) (minT maxT : α) : Except Err (List (Iv α)) :=
+  -- "A span of length zero holds no interval": an empty tier stays empty unless `minTime < maxTime`
+  if es.isEmpty && !decide (minT < maxT) then .ok [] else
   let es0 := if es.isEmpty then [⟨minT, maxT, ""⟩] else es
   match es0 with
   | [] => .error .IndexError
@@ -60,7 +62,13 @@ def stitch (minLen : α) : List (Iv α) → List (Iv α)
 
 /-- `_removeUltrashortIntervals(tier, minLength, minTimestamp)` -/
 def removeUltrashort (es : List (Iv α)) (minLen minT : α) : List (Iv α) :=
-  stitch minLen (absorbShort minLen minT [] es)
+  let ne := stitch minLen (absorbShort minLen minT [] es)
+  -- "Every interval was ultra-short": one blank from `minTimestamp` to the end of the last entry
+  if ne.isEmpty then
+    match es.getLast? with
+    | some lst => [⟨minT, lst.e, ""⟩]
+    | none => []
+  else ne
 
 def AnyTier.outside (t : AnyTier α) (minT maxT : Option α) : Bool :=
   let chk (s e : α) : Bool :=
@@ -71,13 +79,16 @@ def AnyTier.outside (t : AnyTier α) (minT maxT : Option α) : Bool :=
   | .P t => t.ps.any fun p => chk p.t p.t
 
 /-- `_prepTgForSaving(tg, includeBlankSpaces, minTimestamp, maxTimestamp, minimumIntervalLength)`
-(after the fix in /repo: no entry may lie outside the requested span) -/
+(after the fixes in /repo: no entry may lie outside the requested span; an override is also the span of every tier; a
+span that runs backwards is rejected) -/
 def prepTg (g : Tg α) (blanks : Bool) (minOv maxOv : Option α) (minLen : Option α) : Except Err (Tg α) := do
+  let ovr (ov : Option α) (own : α) : α := match ov with | some m => m | none => own
   let sorted : List (AnyTier α) := g.tiers.map fun
-    | .I t => .I { t with es := sortIvs t.es }
-    | .P t => .P { t with ps := sortPts t.ps }
+    | .I t => .I { t with es := sortIvs t.es, lo := ovr minOv t.lo, hi := ovr maxOv t.hi }
+    | .P t => .P { t with ps := sortPts t.ps, lo := ovr minOv t.lo, hi := ovr maxOv t.hi }
   let minT := match minOv with | some m => some m | none => g.lo
   let maxT := match maxOv with | some m => some m | none => g.hi
+  if (match minT, maxT with | some a, some b => decide (b < a) | _, _ => false) then throw .ParsingError
   if sorted.any (fun t => t.outside minT maxT) then throw .ParsingError
   let tiers ← sorted.mapM fun
     | .P t => pure (AnyTier.P t)
